@@ -2,9 +2,18 @@
   C03K — CKKS evaluation at the INTEGER level for the MODEL (property C03).
 
   Every theorem speaks about `Spec.phase` (the exact centred big-integer phase Σ c_k s^k in Z_Q[X]/(X^N+1)) of the result of a MODEL
-  operation (`ctTranslate`, `ctNegate`, `ctMultiplyDyadic`, `ctMultiplyPlainNtt`, `modSwitchScaleNext`, `modSwitchDropNext`) on canonical
-  NTT-form ciphertexts of any admissible sizes, for any level satisfying `Level.WF` and `c07s_LevelQ` (both derived from the model's
-  constructors in C01Q: `level_bundles_of_constructors`).
+  operation (`ctTranslate`, `ctNegate`, `ctMultiplyDyadic`, `ctMultiplyPlainNtt`, `modSwitchScaleNext`, `modSwitchDropNext`,
+  `relinearize`) on canonical NTT-form ciphertexts of any admissible sizes, for any level satisfying `Level.WF` and `c07s_LevelQ`
+  (both derived from the model's constructors in C01Q: `level_bundles_of_constructors`, `mkLevel_ok`).
+
+  K1: `ckks_add_phase`, `ckks_sub_phase`, `ckks_negate_phase`, `ckks_multiply_phase`, `ckks_multiply_plain_phase`,
+      `ckks_mod_switch_drop_phase` (the name `ckks_drop_phase` is taken by C07L), `ckks_rescale_phase` (+ `_exact`),
+      `ckks_relinearize_phase` (+ `ckks_relinearize_noise`), `ckks_phase_centred`, `ckks_phase_exact`.
+  K2: programs `c03k_Prog`, model evaluator `c03k_run`, reference evaluator `c03k_ref` (exact rationals + interval bounds),
+      `ckks_program_inv`, `ckks_program_sound`.
+  K3: `ckks_*_refuses_*`, `ckks_rescale_refusals`, `ckks_relinearize_refusals`, `ckks_scaleOk_false_iff`, `ckks_prog_refuses_*`.
+  Non-vacuity: `c03k_exChainOK`, `c03k_exNext`, `c03k_exEnv`, `c03k_program_nonvacuous`, `c03k_exRelinOK`,
+      `c03k_relinearize_nonvacuous`, `c03k_program_relin_nonvacuous`; `c03k_plainLift_crt`, `c03k_Canon.of_ctCanon`.
 
   Method: per prime q_m the phase is an element of the commutative ring `c03k_NP (ZMod q_m) N` = Z_{q_m}[X]/(X^N+1) (coefficient functions
   with the negacyclic product `negMulR`; the ring axioms come from C04K's `c04k_comm/_assoc/...`); in that ring the phase algebra of C02K
@@ -974,6 +983,19 @@ inductive c03k_Prog where
   | mulPlain (a : c03k_Prog) (p : Nat)
   | rescale (a : c03k_Prog)
   | drop (a : c03k_Prog)
+  | relin (a : c03k_Prog)
+
+/-- does the program contain a relinearisation? (only then the key-switching hypotheses are needed) -/
+def c03k_Prog.hasRelin : c03k_Prog → Bool
+  | .input _ => false
+  | .add a b => a.hasRelin || b.hasRelin
+  | .sub a b => a.hasRelin || b.hasRelin
+  | .neg a => a.hasRelin
+  | .mul a b => a.hasRelin || b.hasRelin
+  | .mulPlain a _ => a.hasRelin
+  | .rescale a => a.hasRelin
+  | .drop a => a.hasRelin
+  | .relin _ => true
 
 /-- a ciphertext value of the model evaluator: level index in the chain, ciphertext, recorded scale (an exact rational) -/
 structure c03k_Val where
@@ -1038,22 +1060,30 @@ def c03k_opDrop (chain : Nat → Level) (x : c03k_Val) : R c03k_Val :=
   else if !(c03k_valid (chain x.lv) x.ct) then .error .refused
   else c03k_liftR (modSwitchDropNext (chain x.lv) x.ct) (fun r => ⟨x.lv - 1, r, x.scale⟩)
 
+/-- relinearise a size-3 ciphertext with the model's `relinearize` (key level `kl`, keys `keys`, fuel 3) -/
+def c03k_opRelin (chain : Nat → Level) (kl : KeyLevel) (keys : Nat → Option KSKey) (x : c03k_Val) : R c03k_Val :=
+  if !(c03k_valid (chain x.lv) x.ct) then .error .refused
+  else if x.ct.polys.size ≠ 3 then .error .refused
+  else c03k_liftR (relinearize kl .ckks (chain x.lv).size keys (1 + 2) x.ct) (fun r => ⟨x.lv, r, x.scale⟩)
+
 /-- the MODEL evaluator of programs -/
-def c03k_run (chain : Nat → Level) (cts : Array c03k_Val) (pls : Array c03k_Plain) : c03k_Prog → R c03k_Val
+def c03k_run (chain : Nat → Level) (cts : Array c03k_Val) (pls : Array c03k_Plain) (kl : KeyLevel) (keys : Nat → Option KSKey) :
+    c03k_Prog → R c03k_Val
   | .input i => match cts[i]? with
       | some v => .ok v
       | none => .error .refused
-  | .add a b => do let x ← c03k_run chain cts pls a; let y ← c03k_run chain cts pls b; c03k_opTranslate chain false x y
-  | .sub a b => do let x ← c03k_run chain cts pls a; let y ← c03k_run chain cts pls b; c03k_opTranslate chain true x y
-  | .neg a => do let x ← c03k_run chain cts pls a; c03k_opNeg chain x
-  | .mul a b => do let x ← c03k_run chain cts pls a; let y ← c03k_run chain cts pls b; c03k_opMul chain x y
+  | .add a b => do let x ← c03k_run chain cts pls kl keys a; let y ← c03k_run chain cts pls kl keys b; c03k_opTranslate chain false x y
+  | .sub a b => do let x ← c03k_run chain cts pls kl keys a; let y ← c03k_run chain cts pls kl keys b; c03k_opTranslate chain true x y
+  | .neg a => do let x ← c03k_run chain cts pls kl keys a; c03k_opNeg chain x
+  | .mul a b => do let x ← c03k_run chain cts pls kl keys a; let y ← c03k_run chain cts pls kl keys b; c03k_opMul chain x y
   | .mulPlain a p => do
-      let x ← c03k_run chain cts pls a
+      let x ← c03k_run chain cts pls kl keys a
       match pls[p]? with
       | some q => c03k_opMulPlain chain x q
       | none => .error .refused
-  | .rescale a => do let x ← c03k_run chain cts pls a; c03k_opRescale chain x
-  | .drop a => do let x ← c03k_run chain cts pls a; c03k_opDrop chain x
+  | .rescale a => do let x ← c03k_run chain cts pls kl keys a; c03k_opRescale chain x
+  | .drop a => do let x ← c03k_run chain cts pls kl keys a; c03k_opDrop chain x
+  | .relin a => do let x ← c03k_run chain cts pls kl keys a; c03k_opRelin chain kl keys x
 
 /-- a reference value: level, exact rational polynomial, bound on its ∞-norm (magnitude), bound on the distance of the model's
     phase from it (noise), exact scale, number of polynomials -/
@@ -1094,30 +1124,35 @@ def c03k_refRescale (chain : Nat → Level) (S1 : Nat) (x : c03k_Ref) : c03k_Ref
 
 def c03k_refDrop (x : c03k_Ref) : c03k_Ref := ⟨x.lv - 1, x.val, x.mag, x.err, x.scale, x.size⟩
 
+/-- relinearisation leaves the reference polynomial unchanged and adds the key-switching noise bound of the level -/
+def c03k_refRelin (Bnu : Nat → ℚ) (x : c03k_Ref) : c03k_Ref := ⟨x.lv, x.val, x.mag, x.err + Bnu x.lv, x.scale, 2⟩
+
 def c03k_guard (chain : Nat → Level) (r : c03k_Ref) : Option c03k_Ref := if c03k_fits chain r then some r else none
 
 /-- the REFERENCE evaluator: exact rational polynomials with interval bounds (magnitude, noise); `none` when an interval does not
     fit into the modulus of its level -/
-def c03k_ref (chain : Nat → Level) (N S1 : Nat) (refIn : Nat → c03k_Ref) (pls : Array c03k_Plain) (plRef : Nat → c03k_PlainRef) :
+def c03k_ref (chain : Nat → Level) (N S1 : Nat) (refIn : Nat → c03k_Ref) (pls : Array c03k_Plain) (plRef : Nat → c03k_PlainRef)
+    (Bnu : Nat → ℚ) :
     c03k_Prog → Option c03k_Ref
   | .input i => some (refIn i)
   | .add a b => do
-      let x ← c03k_ref chain N S1 refIn pls plRef a; let y ← c03k_ref chain N S1 refIn pls plRef b
+      let x ← c03k_ref chain N S1 refIn pls plRef Bnu a; let y ← c03k_ref chain N S1 refIn pls plRef Bnu b
       c03k_guard chain (c03k_refTranslate false x y)
   | .sub a b => do
-      let x ← c03k_ref chain N S1 refIn pls plRef a; let y ← c03k_ref chain N S1 refIn pls plRef b
+      let x ← c03k_ref chain N S1 refIn pls plRef Bnu a; let y ← c03k_ref chain N S1 refIn pls plRef Bnu b
       c03k_guard chain (c03k_refTranslate true x y)
-  | .neg a => do let x ← c03k_ref chain N S1 refIn pls plRef a; c03k_guard chain (c03k_refNeg x)
+  | .neg a => do let x ← c03k_ref chain N S1 refIn pls plRef Bnu a; c03k_guard chain (c03k_refNeg x)
   | .mul a b => do
-      let x ← c03k_ref chain N S1 refIn pls plRef a; let y ← c03k_ref chain N S1 refIn pls plRef b
+      let x ← c03k_ref chain N S1 refIn pls plRef Bnu a; let y ← c03k_ref chain N S1 refIn pls plRef Bnu b
       c03k_guard chain (c03k_refMul N x y)
   | .mulPlain a p => do
-      let x ← c03k_ref chain N S1 refIn pls plRef a
+      let x ← c03k_ref chain N S1 refIn pls plRef Bnu a
       match pls[p]? with
       | some q => c03k_guard chain (c03k_refMulPlain N x (plRef p) q.scale)
       | none => none
-  | .rescale a => do let x ← c03k_ref chain N S1 refIn pls plRef a; c03k_guard chain (c03k_refRescale chain S1 x)
-  | .drop a => do let x ← c03k_ref chain N S1 refIn pls plRef a; c03k_guard chain (c03k_refDrop x)
+  | .rescale a => do let x ← c03k_ref chain N S1 refIn pls plRef Bnu a; c03k_guard chain (c03k_refRescale chain S1 x)
+  | .drop a => do let x ← c03k_ref chain N S1 refIn pls plRef Bnu a; c03k_guard chain (c03k_refDrop x)
+  | .relin a => do let x ← c03k_ref chain N S1 refIn pls plRef Bnu a; c03k_guard chain (c03k_refRelin Bnu x)
 
 /-- a chain of CKKS levels 0 … top: well-formed, tools of the levels' moduli, consecutive levels differ by the last prime -/
 structure c03k_ChainOK (chain : Nat → Level) (top N : Nat) : Prop where
@@ -1421,6 +1456,45 @@ theorem ckks_relinearize_noise {l : Level} {kl : KeyLevel} (sk : Array Int) {ct 
   have := switchKey_noise_bound h hke hA he
   rw [hn] at this
   exact this
+
+/-- K1 RESCALE, exact form: when phase(ct) + ρ does not wrap around modulo Q the congruence is an equality of integers; then
+    |q_L·phase(result) − phase(ct)| ≤ (q_L/2)·Σ_{k<size}‖s‖₁^k, i.e. |phase(result) − phase(ct)/q_L| ≤ (1/2)·Σ_{k<size}‖s‖₁^k
+    (size 2: (1 + ‖s‖₁)/2) -/
+theorem ckks_rescale_phase_exact {l l' : Level} (hl : l.WF) (hl' : l'.WF) (ht : c05u_ToolOK l) (hq' : c07s_LevelQ l')
+    (hn : c03k_Next l l') (hs : l.scheme = .ckks) (sk : Array Int) {ct ct' : Ct} (hc : c03k_Canon l ct)
+    (hok : modSwitchScaleNext l ct = .ok ct') {j : Nat} (hj : j < l.n)
+    (hsmall : 2 * (c03k_phase l sk ct j + c03k_rescaleErr l sk ct j).natAbs < c03k_Q l) :
+    (c03k_qL l : Int) * c03k_phase l' sk ct' j = c03k_phase l sk ct j + c03k_rescaleErr l sk ct j ∧
+      2 * ((c03k_qL l : Int) * c03k_phase l' sk ct' j - c03k_phase l sk ct j).natAbs
+        ≤ c03k_qL l * ∑ k ∈ range ct.polys.size, (c03k_skL1 l.n sk) ^ k := by
+  obtain ⟨r, hr, hcr, _, _, hQ, hph, hbd⟩ := ckks_rescale_phase hl hl' ht hq' hn hs sk hc
+  rw [hok] at hr
+  obtain rfl := Except.ok.inj hr
+  have hcen := c03k_phase_centred hq' sk hcr (j := j) (by rw [hn.n]; exact hj)
+  have hQz : (c03k_Q l : Int) = (c03k_Q l' : Int) * (c03k_qL l : Int) := by rw [hQ]; push_cast; ring
+  have hqLn : 0 < c03k_qL l := by
+    by_contra h0
+    have : c03k_qL l = 0 := by omega
+    rw [this, Nat.mul_zero] at hQ
+    omega
+  have hqLz : (0 : Int) < (c03k_qL l : Int) := by exact_mod_cast hqLn
+  have e := c03k_eq_of_small (hph j hj) (by rw [hQz]; constructor <;> nlinarith [hcen.1, hcen.2, hqLz]) hsmall
+  refine ⟨e, ?_⟩
+  rw [e, add_sub_cancel_left]
+  exact hbd j hj
+
+/-- model level: relinearising a size-3 ciphertext without a key for s² is refused; a size-2 ciphertext is returned unchanged;
+    fewer than two polynomials are refused -/
+theorem ckks_relinearize_refusals (kl : KeyLevel) (scheme : Scheme) (dsz : Nat) (keys : Nat → Option KSKey) (fuel : Nat) (ct : Ct) :
+    (ct.polys.size < 2 → relinearize kl scheme dsz keys (fuel + 1) ct = .error .refused) ∧
+    (ct.polys.size = 2 → relinearize kl scheme dsz keys (fuel + 1) ct = .ok ct) ∧
+    (ct.polys.size = 3 → keys 2 = none → relinearize kl scheme dsz keys (fuel + 1) ct = .error .refused) := by
+  refine ⟨fun h => ?_, fun h => relinearize_size2 kl scheme dsz keys fuel ct h, fun h hk => ?_⟩
+  · rw [relinearize]
+    simp only [if_pos h]
+  · rw [relinearize]
+    simp only [h, hk]
+    rfl
 
 /-! ### K2, program level: soundness of every operation against the reference evaluator (helpers), then the theorem -/
 
@@ -1754,6 +1828,85 @@ theorem c03k_rescale_sound {chain : Nat → Level} {top N : Nat} {sk : Array Int
     rw [hrlv, hS]
     exact div_nonneg (add_nonneg hx.err0 (div_nonneg (mul_nonneg (le_of_lt hqL) hSnn) (by norm_num))) (le_of_lt hqL)
 
+/-- hypotheses for programs that relinearise: the key level `kl` contains every level of the chain (same moduli, degree, tables),
+    `keys 2 = some key` is a two-component key whose rows are canonical etc. (`c04t_KSInput` for every canonical size-3 ciphertext),
+    the KEY EQUATION for s² → s holds at every level with errors e_i, ‖e_i‖∞ ≤ Be, the level moduli are ≤ A, and `Bnu lv` dominates
+    the noise bound (dsz·A·N·Be + ⌊P/2⌋(1 + ‖s‖₁))/P of `switchKey_noise_bound` -/
+structure c03k_RelinOK (chain : Nat → Level) (top N : Nat) (sk : Array Int) (kl : KeyLevel) (keys : Nat → Option KSKey)
+    (key : KSKey) (e : Nat → Nat → Int) (G : Nat → Nat → Int) (A Be : Nat) (Bnu : Nat → ℚ) : Prop where
+  of : ∀ lv, lv ≤ top → c03k_KeyLevelOf kl (chain lv)
+  key2 : keys 2 = some key
+  kcc : (key.getD 0 #[]).size = 2
+  ksin : ∀ lv, lv ≤ top → ∀ ct : Ct, CtCanon (chain lv) ct → ct.polys.size = 3 →
+    c04t_KSInput kl (chain lv).size ct (ct.polys.getD 2 #[]) key
+  keyEq : ∀ lv, lv ≤ top → c04k_KeyEq kl (chain lv).size key (c03k_skf sk)
+    (fun p => negMulR kl.n (c03k_skf sk) (c03k_skf sk) p) e (G lv)
+  hA : ∀ lv, lv ≤ top → ∀ i, i < (chain lv).size → (kl.m i).value ≤ A
+  he : ∀ lv, lv ≤ top → ∀ i, i < (chain lv).size → ∀ p, p < kl.n → (e i p).natAbs ≤ Be
+  hB : ∀ lv, lv ≤ top →
+    ((((chain lv).size * (A * (kl.n * Be)) + kl.c04t_P / 2 * (1 + c03k_skL1 kl.n sk) : Nat) : ℚ)) / (kl.c04t_P : ℚ) ≤ Bnu lv
+
+theorem c03k_relin_sound {chain : Nat → Level} {top N : Nat} {sk : Array Int} (hch : c03k_ChainOK chain top N)
+    {kl : KeyLevel} {keys : Nat → Option KSKey} {key : KSKey} {e : Nat → Nat → Int} {G : Nat → Nat → Int} {A Be : Nat}
+    {Bnu : Nat → ℚ} (hrel : c03k_RelinOK chain top N sk kl keys key e G A Be Bnu)
+    {x v : c03k_Val} {rx : c03k_Ref} (hx : c03k_Inv chain top N sk x rx)
+    (hop : c03k_opRelin chain kl keys x = .ok v) (hf : c03k_fits chain (c03k_refRelin Bnu rx) = true) :
+    c03k_Inv chain top N sk v (c03k_refRelin Bnu rx) := by
+  unfold c03k_opRelin at hop
+  split at hop
+  · cases hop
+  rename_i h3
+  split at hop
+  · cases hop
+  rename_i hs3
+  simp only [Bool.not_eq_true', Bool.not_eq_false] at h3
+  have hsz3 : x.ct.polys.size = 3 := not_not.mp hs3
+  obtain ⟨r, hr, rfl⟩ := c03k_liftR_ok hop
+  have hl := hch.wf _ hx.le
+  have hq := c01q_levelQ_of_toolOK (hch.tool _ hx.le)
+  have hn := hch.n _ hx.le
+  have hlo := hrel.of _ hx.le
+  obtain ⟨ha, hna⟩ := c03k_valid_canon h3
+  have hks := hrel.ksin _ hx.le x.ct ha hsz3
+  have hke := hrel.keyEq _ hx.le
+  obtain ⟨r', hr', hcr, hnr, _, hsz, hph⟩ := ckks_relinearize_phase hl hq hlo sk ha hna hsz3 keys 1 hrel.key2 hks hrel.kcc hke
+  rw [hr] at hr'
+  obtain rfl := Except.ok.inj hr'
+  rw [hn] at hph
+  have hkn : kl.n = N := by rw [← hlo.n, hn]
+  have hnoise := ckks_relinearize_noise sk hks hna hke (hrel.hA _ hx.le) (hrel.he _ hx.le)
+  have hP2 := (c04t_kl_comp hks.hkl (show kl.ms.size - 1 < kl.ms.size by have := hks.hsz; omega)).2.2.2.two_le
+  have hP : (0 : ℚ) < (kl.c04t_P : ℚ) := by
+    have : 0 < kl.c04t_P := by unfold KeyLevel.c04t_P; omega
+    exact_mod_cast this
+  have hnu : ∀ j, j < N → |((c04k_nuStd kl (chain x.lv).size true (x.ct.polys.getD 2 #[]) key e (c03k_skf sk) j : Int) : ℚ)|
+      ≤ Bnu x.lv := by
+    intro j hj
+    refine le_trans ?_ (hrel.hB _ hx.le)
+    rw [le_div_iff₀ hP, ← Int.cast_abs, ← Nat.cast_natAbs]
+    have := hnoise j (by rw [hkn]; exact hj)
+    have e1 : (∑ p ∈ range kl.n, (c03k_skf sk p).natAbs) = c03k_skL1 kl.n sk := rfl
+    rw [e1] at this
+    exact_mod_cast this
+  have hrlv : rx.lv = x.lv := hx.lv.symm
+  have hB0 : 0 ≤ Bnu x.lv := by
+    refine le_trans ?_ (hrel.hB _ hx.le)
+    exact div_nonneg (Nat.cast_nonneg _) (le_of_lt hP)
+  refine c03k_inv_of_modEq hch hx.lv hx.le hx.scale (by show r.polys.size = 2; exact hsz) (.of_ctCanon hcr hnr)
+    (fun j => c03k_phase (chain x.lv) sk x.ct j
+      + c04k_nuStd kl (chain x.lv).size true (x.ct.polys.getD 2 #[]) key e (c03k_skf sk) j)
+    (fun j hj => hph j hj) (fun j hj => ?_) (fun j hj => hx.mag j hj) hx.mag0
+    (by show 0 ≤ rx.err + Bnu rx.lv; rw [hrlv]; exact add_nonneg hx.err0 hB0) hf
+  show |((c03k_phase (chain x.lv) sk x.ct j
+      + c04k_nuStd kl (chain x.lv).size true (x.ct.polys.getD 2 #[]) key e (c03k_skf sk) j : Int) : ℚ) - rx.val j| ≤ rx.err + Bnu rx.lv
+  have e3 : ((c03k_phase (chain x.lv) sk x.ct j
+      + c04k_nuStd kl (chain x.lv).size true (x.ct.polys.getD 2 #[]) key e (c03k_skf sk) j : Int) : ℚ) - rx.val j
+      = (((c03k_phase (chain x.lv) sk x.ct j : Int) : ℚ) - rx.val j)
+        + ((c04k_nuStd kl (chain x.lv).size true (x.ct.polys.getD 2 #[]) key e (c03k_skf sk) j : Int) : ℚ) := by
+    push_cast; ring
+  rw [e3, hrlv]
+  exact le_trans (abs_add_le _ _) (add_le_add (hx.close j hj) (hnu j hj))
+
 theorem c03k_obind {α β : Type} {x : Option α} {f : α → Option β} {b : β} (h : (x >>= f) = some b) :
     ∃ a, x = some a ∧ f a = some b := by
   cases x with
@@ -1775,11 +1928,21 @@ structure c03k_EnvOK (chain : Nat → Level) (top N : Nat) (sk : Array Int) (cts
     the model's result satisfies the invariant against the reference result -/
 theorem ckks_program_inv {chain : Nat → Level} {top N : Nat} {sk : Array Int} (hch : c03k_ChainOK chain top N)
     {cts : Array c03k_Val} {refIn : Nat → c03k_Ref} {pls : Array c03k_Plain} {plRef : Nat → c03k_PlainRef}
-    (henv : c03k_EnvOK chain top N sk cts refIn pls plRef) (prog : c03k_Prog) {v : c03k_Val} {r : c03k_Ref}
-    (hrun : c03k_run chain cts pls prog = .ok v)
-    (href : c03k_ref chain N (c03k_skL1 N sk) refIn pls plRef prog = some r) :
+    (henv : c03k_EnvOK chain top N sk cts refIn pls plRef)
+    {kl : KeyLevel} {keys : Nat → Option KSKey} {key : KSKey} {e : Nat → Nat → Int} {G : Nat → Nat → Int} {A Be : Nat}
+    {Bnu : Nat → ℚ} (prog : c03k_Prog)
+    (hrel : prog.hasRelin = true → c03k_RelinOK chain top N sk kl keys key e G A Be Bnu) {v : c03k_Val} {r : c03k_Ref}
+    (hrun : c03k_run chain cts pls kl keys prog = .ok v)
+    (href : c03k_ref chain N (c03k_skL1 N sk) refIn pls plRef Bnu prog = some r) :
     c03k_Inv chain top N sk v r := by
   induction prog generalizing v r with
+  | relin a iha =>
+    rw [c03k_run] at hrun
+    rw [c03k_ref] at href
+    obtain ⟨x, hx, h1⟩ := c01p_bind_ok hrun
+    obtain ⟨rx, hrx, g1⟩ := c03k_obind href
+    obtain ⟨rfl, hf⟩ := c03k_guard_some g1
+    exact c03k_relin_sound hch (hrel rfl) (iha (fun _ => hrel rfl) hx hrx) h1 hf
   | input i =>
     rw [c03k_run] at hrun
     rw [c03k_ref] at href
@@ -1798,7 +1961,7 @@ theorem ckks_program_inv {chain : Nat → Level} {top N : Nat} {sk : Array Int} 
     obtain ⟨rx, hrx, g1⟩ := c03k_obind href
     obtain ⟨ry, hry, g2⟩ := c03k_obind g1
     obtain ⟨rfl, hf⟩ := c03k_guard_some g2
-    exact c03k_translate_sound hch false (iha hx hrx) (ihb hy hry) h2 hf
+    exact c03k_translate_sound hch false (iha (fun h => hrel (by simp [c03k_Prog.hasRelin, h])) hx hrx) (ihb (fun h => hrel (by simp [c03k_Prog.hasRelin, h])) hy hry) h2 hf
   | sub a b iha ihb =>
     rw [c03k_run] at hrun
     rw [c03k_ref] at href
@@ -1807,14 +1970,14 @@ theorem ckks_program_inv {chain : Nat → Level} {top N : Nat} {sk : Array Int} 
     obtain ⟨rx, hrx, g1⟩ := c03k_obind href
     obtain ⟨ry, hry, g2⟩ := c03k_obind g1
     obtain ⟨rfl, hf⟩ := c03k_guard_some g2
-    exact c03k_translate_sound hch true (iha hx hrx) (ihb hy hry) h2 hf
+    exact c03k_translate_sound hch true (iha (fun h => hrel (by simp [c03k_Prog.hasRelin, h])) hx hrx) (ihb (fun h => hrel (by simp [c03k_Prog.hasRelin, h])) hy hry) h2 hf
   | neg a iha =>
     rw [c03k_run] at hrun
     rw [c03k_ref] at href
     obtain ⟨x, hx, h1⟩ := c01p_bind_ok hrun
     obtain ⟨rx, hrx, g1⟩ := c03k_obind href
     obtain ⟨rfl, hf⟩ := c03k_guard_some g1
-    exact c03k_neg_sound hch (iha hx hrx) h1 hf
+    exact c03k_neg_sound hch (iha (fun h => hrel (by simp [c03k_Prog.hasRelin, h])) hx hrx) h1 hf
   | mul a b iha ihb =>
     rw [c03k_run] at hrun
     rw [c03k_ref] at href
@@ -1823,7 +1986,7 @@ theorem ckks_program_inv {chain : Nat → Level} {top N : Nat} {sk : Array Int} 
     obtain ⟨rx, hrx, g1⟩ := c03k_obind href
     obtain ⟨ry, hry, g2⟩ := c03k_obind g1
     obtain ⟨rfl, hf⟩ := c03k_guard_some g2
-    exact c03k_mul_sound hch (iha hx hrx) (ihb hy hry) h2 hf
+    exact c03k_mul_sound hch (iha (fun h => hrel (by simp [c03k_Prog.hasRelin, h])) hx hrx) (ihb (fun h => hrel (by simp [c03k_Prog.hasRelin, h])) hy hry) h2 hf
   | mulPlain a p iha =>
     rw [c03k_run] at hrun
     rw [c03k_ref] at href
@@ -1834,7 +1997,7 @@ theorem ckks_program_inv {chain : Nat → Level} {top N : Nat} {sk : Array Int} 
     | some q =>
       rw [hc] at h1 g1
       obtain ⟨rfl, hf⟩ := c03k_guard_some g1
-      exact c03k_mulPlain_sound hch (iha hx hrx) (henv.plainCanon p q hc) (henv.plainLift p q hc) (henv.plainBound p)
+      exact c03k_mulPlain_sound hch (iha (fun h => hrel (by simp [c03k_Prog.hasRelin, h])) hx hrx) (henv.plainCanon p q hc) (henv.plainLift p q hc) (henv.plainBound p)
         (henv.plainBound0 p) h1 hf
   | rescale a iha =>
     rw [c03k_run] at hrun
@@ -1842,28 +2005,31 @@ theorem ckks_program_inv {chain : Nat → Level} {top N : Nat} {sk : Array Int} 
     obtain ⟨x, hx, h1⟩ := c01p_bind_ok hrun
     obtain ⟨rx, hrx, g1⟩ := c03k_obind href
     obtain ⟨rfl, hf⟩ := c03k_guard_some g1
-    exact c03k_rescale_sound hch (iha hx hrx) h1 hf
+    exact c03k_rescale_sound hch (iha (fun h => hrel (by simp [c03k_Prog.hasRelin, h])) hx hrx) h1 hf
   | drop a iha =>
     rw [c03k_run] at hrun
     rw [c03k_ref] at href
     obtain ⟨x, hx, h1⟩ := c01p_bind_ok hrun
     obtain ⟨rx, hrx, g1⟩ := c03k_obind href
     obtain ⟨rfl, hf⟩ := c03k_guard_some g1
-    exact c03k_drop_sound hch (iha hx hrx) h1 hf
+    exact c03k_drop_sound hch (iha (fun h => hrel (by simp [c03k_Prog.hasRelin, h])) hx hrx) h1 hf
 
 /-- K2: the integer-level statement of C03's first sentence.  For every program over add, sub, negate, multiply, multiply_plain,
-    rescale, mod-switch: if the MODEL evaluation succeeds with value `v` and the reference evaluation yields `r`, then the result is
+    rescale, mod-switch, relinearize (the key-switching hypotheses `c03k_RelinOK` are needed only if the program relinearises): if the MODEL evaluation succeeds with value `v` and the reference evaluation yields `r`, then the result is
     at the level the reference predicts, its recorded scale is EXACTLY the reference scale (products for multiplications, quotients
     by the dropped primes for rescalings), it has the predicted number of polynomials, and every coefficient of its exact phase is
     within the computed worst-case bound `r.err` of the reference polynomial `r.val` (itself bounded by `r.mag`) -/
 theorem ckks_program_sound {chain : Nat → Level} {top N : Nat} {sk : Array Int} (hch : c03k_ChainOK chain top N)
     {cts : Array c03k_Val} {refIn : Nat → c03k_Ref} {pls : Array c03k_Plain} {plRef : Nat → c03k_PlainRef}
-    (henv : c03k_EnvOK chain top N sk cts refIn pls plRef) (prog : c03k_Prog) {v : c03k_Val} {r : c03k_Ref}
-    (hrun : c03k_run chain cts pls prog = .ok v)
-    (href : c03k_ref chain N (c03k_skL1 N sk) refIn pls plRef prog = some r) :
+    (henv : c03k_EnvOK chain top N sk cts refIn pls plRef)
+    {kl : KeyLevel} {keys : Nat → Option KSKey} {key : KSKey} {e : Nat → Nat → Int} {G : Nat → Nat → Int} {A Be : Nat}
+    {Bnu : Nat → ℚ} (prog : c03k_Prog)
+    (hrel : prog.hasRelin = true → c03k_RelinOK chain top N sk kl keys key e G A Be Bnu) {v : c03k_Val} {r : c03k_Ref}
+    (hrun : c03k_run chain cts pls kl keys prog = .ok v)
+    (href : c03k_ref chain N (c03k_skL1 N sk) refIn pls plRef Bnu prog = some r) :
     v.lv = r.lv ∧ v.scale = r.scale ∧ v.ct.polys.size = r.size ∧ c03k_Canon (chain v.lv) v.ct ∧
       ∀ j, j < N → |((c03k_phase (chain v.lv) sk v.ct j : Int) : ℚ) - r.val j| ≤ r.err ∧ |r.val j| ≤ r.mag := by
-  have h := ckks_program_inv hch henv prog hrun href
+  have h := ckks_program_inv hch henv prog hrel hrun href
   exact ⟨h.lv, h.scale, h.size, h.canon, fun j hj => ⟨h.close j hj, h.mag j hj⟩⟩
 
 /-! ### K3: refusals.  The model's ciphertext operations take ONE level `l` for all operands, so "operands on different levels"
@@ -1968,6 +2134,17 @@ theorem ckks_prog_refuses_invalid (chain : Nat → Level) (x : c03k_Val) (h : c0
     · rfl
     · rw [if_pos (by rw [h]; rfl)]
 
+/-- program level: relinearisation refuses invalid operands and sizes other than 3 -/
+theorem ckks_prog_relin_refusals (chain : Nat → Level) (kl : KeyLevel) (keys : Nat → Option KSKey) (x : c03k_Val) :
+    (c03k_valid (chain x.lv) x.ct = false → c03k_opRelin chain kl keys x = .error .refused) ∧
+    (x.ct.polys.size ≠ 3 → c03k_opRelin chain kl keys x = .error .refused) := by
+  refine ⟨fun h => ?_, fun h => ?_⟩
+  · unfold c03k_opRelin; rw [if_pos (by rw [h]; rfl)]
+  · unfold c03k_opRelin
+    by_cases h1 : (!(c03k_valid (chain x.lv) x.ct)) = true
+    · rw [if_pos h1]
+    · rw [if_neg h1, if_pos h]
+
 /-- program level: rescale / mod-switch below level 0 are refused -/
 theorem ckks_prog_refuses_last_level (chain : Nat → Level) (x : c03k_Val) (h : x.lv = 0) :
     c03k_opRescale chain x = .error .refused ∧ c03k_opDrop chain x = .error .refused := by
@@ -2069,49 +2246,56 @@ theorem c03k_exInv : c03k_Inv c03k_exChain 1 4 c03k_exSk c03k_exVal (c03k_exRef 
     rw [← Int.cast_abs, ← Nat.cast_natAbs]
     exact_mod_cast this
 
-/-- `c03k_EnvOK` is satisfiable -/
-theorem c03k_exEnv : c03k_EnvOK c03k_exChain 1 4 c03k_exSk #[c03k_exVal] c03k_exRef #[] (fun _ => ⟨fun _ => 0, 0⟩) := by
-  refine ⟨fun i v h => ?_, fun i q h => ?_, fun i q h => ?_, fun i j _ => by simp, fun i => le_refl _⟩
+/-- an environment with one input ciphertext and no plaintexts -/
+theorem c03k_env_single {chain : Nat → Level} {top N : Nat} {sk : Array Int} {v : c03k_Val} {refIn : Nat → c03k_Ref}
+    (hv : c03k_Inv chain top N sk v (refIn 0)) :
+    c03k_EnvOK chain top N sk #[v] refIn #[] (fun _ => ⟨fun _ => 0, 0⟩) := by
+  refine ⟨fun i w h => ?_, fun i q h => ?_, fun i q h => ?_, fun i j _ => by simp, fun i => le_refl _⟩
   · have hi : i = 0 := by
       by_contra hne
-      have : (#[c03k_exVal] : Array c03k_Val)[i]? = none := by
+      have : (#[v] : Array c03k_Val)[i]? = none := by
         apply Array.getElem?_eq_none; simp; omega
       rw [this] at h; cases h
     subst hi
-    have : v = c03k_exVal := by simpa using h.symm
+    have : w = v := by simpa using h.symm
     subst this
-    exact c03k_exInv
+    exact hv
   · simp at h
   · simp at h
 
-theorem c03k_exRun_ok : (c03k_run c03k_exChain #[c03k_exVal] #[] c03k_exProg).toOption.isSome = true := by decide +kernel
+/-- `c03k_EnvOK` is satisfiable -/
+theorem c03k_exEnv : c03k_EnvOK c03k_exChain 1 4 c03k_exSk #[c03k_exVal] c03k_exRef #[] (fun _ => ⟨fun _ => 0, 0⟩) :=
+  c03k_env_single c03k_exInv
+
+theorem c03k_exRun_ok : (c03k_run c03k_exChain #[c03k_exVal] #[] default (fun _ => none) c03k_exProg).toOption.isSome = true := by decide +kernel
 
 theorem c03k_exRef_ok :
-    (c03k_ref c03k_exChain 4 (c03k_skL1 4 c03k_exSk) c03k_exRef #[] (fun _ => ⟨fun _ => 0, 0⟩) c03k_exProg).isSome = true := by
+    (c03k_ref c03k_exChain 4 (c03k_skL1 4 c03k_exSk) c03k_exRef #[] (fun _ => ⟨fun _ => 0, 0⟩) (fun _ => 0) c03k_exProg).isSome = true := by
   decide +kernel
 
 /-- the main theorem applies to a concrete run: level 0, scale 8·8/113, size 3, and every phase coefficient within the bound -/
 theorem c03k_program_nonvacuous :
-    ∃ v r, c03k_run c03k_exChain #[c03k_exVal] #[] c03k_exProg = .ok v ∧
-      c03k_ref c03k_exChain 4 (c03k_skL1 4 c03k_exSk) c03k_exRef #[] (fun _ => ⟨fun _ => 0, 0⟩) c03k_exProg = some r ∧
+    ∃ v r, c03k_run c03k_exChain #[c03k_exVal] #[] default (fun _ => none) c03k_exProg = .ok v ∧
+      c03k_ref c03k_exChain 4 (c03k_skL1 4 c03k_exSk) c03k_exRef #[] (fun _ => ⟨fun _ => 0, 0⟩) (fun _ => 0) c03k_exProg = some r ∧
       v.lv = r.lv ∧ v.scale = r.scale ∧ v.ct.polys.size = r.size ∧
       ∀ j, j < 4 → |((c03k_phase (c03k_exChain v.lv) c03k_exSk v.ct j : Int) : ℚ) - r.val j| ≤ r.err ∧ |r.val j| ≤ r.mag := by
   have h1 := c03k_exRun_ok
   have h2 := c03k_exRef_ok
-  cases hv : c03k_run c03k_exChain #[c03k_exVal] #[] c03k_exProg with
+  cases hv : c03k_run c03k_exChain #[c03k_exVal] #[] default (fun _ => none) c03k_exProg with
   | error e => rw [hv] at h1; cases h1
   | ok v =>
-    cases hr : c03k_ref c03k_exChain 4 (c03k_skL1 4 c03k_exSk) c03k_exRef #[] (fun _ => ⟨fun _ => 0, 0⟩) c03k_exProg with
+    cases hr : c03k_ref c03k_exChain 4 (c03k_skL1 4 c03k_exSk) c03k_exRef #[] (fun _ => ⟨fun _ => 0, 0⟩) (fun _ => 0) c03k_exProg with
     | none => rw [hr] at h2; cases h2
     | some r =>
-      obtain ⟨a, b, c, _, d⟩ := ckks_program_sound c03k_exChainOK c03k_exEnv c03k_exProg hv hr
+      obtain ⟨a, b, c, _, d⟩ := ckks_program_sound c03k_exChainOK c03k_exEnv (key := #[]) (e := fun _ _ => 0) (G := fun _ _ => 0)
+        (A := 0) (Be := 0) c03k_exProg (fun h => by cases h) hv hr
       exact ⟨v, r, rfl, rfl, a, b, c, d⟩
 
 /-! ### non-vacuity of `ckks_relinearize_phase`: the key level of C04T/C04K (N = 2, q = 13, P = 17), a CKKS level on it whose tool
      carries the base built by `RNSBase.new`, the size-3 ciphertext and the relinearisation key of C04K -/
 
 def c03k_exRL : Level :=
-  ⟨.ckks, 2, 1, #[c04t_exMod 13], c04t_exMod 5, #[c04t_exTbl 13 5], { (default : RNSTool) with baseQ := c04k_exBase }⟩
+  ⟨.ckks, 2, 1, #[c04t_exMod 13], c04t_exMod 5, #[c04t_exTbl 13 5], { (default : RNSTool) with baseQ := c04k_exBase, n := 2 }⟩
 
 theorem c03k_exRL_wf : c03k_exRL.WF := by
   refine ⟨rfl, rfl, fun i hi => ?_⟩
@@ -2158,5 +2342,103 @@ theorem c03k_relinearize_nonvacuous (keys : Nat → Option KSKey) (hk : keys 2 =
   obtain ⟨r, h1, h2, _, _, h5, h6⟩ := ckks_relinearize_phase c03k_exRL_wf c03k_exRL_levelQ c03k_exRL_of #[1, -1] c03k_exRL_ct rfl rfl
     keys fuel hk (c04k_exKSInput3 true) (by decide) hke
   exact ⟨r, h1, h2, h5, h6⟩
+
+/-! ### non-vacuity of the program theorem WITH relinearisation: the one-level chain {13} (N = 2), key level {13, 17}, the
+     relinearisation key of C04K, input phase 1 (c0 = X, c1 = 1, s = 1 − X), program `relin (mul x x)` -/
+
+theorem c03k_canon_kl {kl : KeyLevel} {l : Level} (hlo : c03k_KeyLevelOf kl l) {p : RnsPoly} (h : RnsCanon l p) :
+    c04t_Canon kl l.size p := by
+  intro j hj
+  obtain ⟨h1, h2⟩ := h.2 j hj
+  rw [← hlo.n, ← hlo.q j hj]
+  exact ⟨h1, h2⟩
+
+theorem c03k_exRL_tool : c05u_ToolOK c03k_exRL :=
+  ⟨c03k_exRL_levelQ.bwf, c03k_exRL_levelQ.base, rfl, fun i hi => by
+    have : c03k_exRL.size = 1 := rfl
+    omega⟩
+
+def c03k_exChain1 : Nat → Level := fun _ => c03k_exRL
+
+theorem c03k_exChain1OK : c03k_ChainOK c03k_exChain1 0 2 :=
+  ⟨fun _ _ => c03k_exRL_wf, fun _ _ => c03k_exRL_tool, fun _ _ => rfl, fun _ _ => rfl, fun c hc => by omega⟩
+
+def c03k_exKeys : Nat → Option KSKey := fun i => if i = 2 then some c04k_exRelinKey else none
+
+def c03k_exCt2 : Ct := ⟨#[rnsNtt c03k_exRL #[#[0, 1]], rnsNtt c03k_exRL #[#[1, 0]]], true, 1⟩
+def c03k_exVal2 : c03k_Val := ⟨0, c03k_exCt2, 2⟩
+def c03k_exRef2 : Nat → c03k_Ref := fun _ => ⟨0, fun j => ((c03k_phase c03k_exRL #[1, -1] c03k_exCt2 j : Int) : ℚ), 1, 0, 2, 2⟩
+def c03k_exProg2 : c03k_Prog := .relin (.mul (.input 0) (.input 0))
+def c03k_exBnu : Nat → ℚ := fun _ => 50 / 17
+
+theorem c03k_exPhase2 : ∀ j, j < 2 → (c03k_phase c03k_exRL #[1, -1] c03k_exCt2 j).natAbs ≤ 1 := by decide +kernel
+
+theorem c03k_exInv2 : c03k_Inv c03k_exChain1 0 2 #[1, -1] c03k_exVal2 (c03k_exRef2 0) := by
+  refine ⟨rfl, by decide, rfl, rfl, ⟨rfl, by decide, by decide +kernel⟩, fun j hj => ?_, fun j hj => ?_, by norm_num [c03k_exRef2],
+    by norm_num [c03k_exRef2], by decide +kernel⟩
+  · show |((c03k_phase c03k_exRL #[1, -1] c03k_exCt2 j : Int) : ℚ) - ((c03k_phase c03k_exRL #[1, -1] c03k_exCt2 j : Int) : ℚ)| ≤ 0
+    rw [sub_self, abs_zero]
+  · show |((c03k_phase c03k_exRL #[1, -1] c03k_exCt2 j : Int) : ℚ)| ≤ 1
+    have := c03k_exPhase2 j hj
+    rw [← Int.cast_abs, ← Nat.cast_natAbs]
+    exact_mod_cast this
+
+/-- `c03k_RelinOK` is satisfiable -/
+theorem c03k_exRelinOK :
+    c03k_RelinOK c03k_exChain1 0 2 #[1, -1] c04t_exKL c03k_exKeys c04k_exRelinKey c04k_exE (fun _ => c04k_exG) 13 1 c03k_exBnu := by
+  have h := c04k_exKSInput3 true
+  refine ⟨fun _ _ => c03k_exRL_of, rfl, by decide, fun lv _ ct hc h3 => ?_, fun lv _ => ?_, fun lv _ i hi => ?_,
+    fun lv _ i hi p hp => ?_, fun lv _ => ?_⟩
+  · exact ⟨h.hkl, h.hsz, h.hd, h.hks, c03k_canon_kl c03k_exRL_of (hc.canon 2 (by omega)), h.hkey, h.hov,
+      fun k hk => c03k_canon_kl c03k_exRL_of (hc.canon k (by
+        have : (c04k_exRelinKey.getD 0 #[]).size = 2 := by decide
+        omega)), h.hinv⟩
+  · show c04k_KeyEq c04t_exKL 1 c04k_exRelinKey (c03k_skf #[1, -1])
+      (fun p => negMulR c04t_exKL.n (c03k_skf #[1, -1]) (c03k_skf #[1, -1]) p) c04k_exE c04k_exG
+    have h' := c04k_exRelinKeyEq
+    rw [c04k_exS_eq] at h'
+    exact h'
+  · have : i < 1 := hi
+    interval_cases i
+    decide +kernel
+  · have hp2 : p < 2 := hp
+    interval_cases p
+    · show ((1 : Int)).natAbs ≤ 1
+      decide
+    · show ((-1 : Int)).natAbs ≤ 1
+      decide
+  · show (((c03k_exRL.size * (13 * (c04t_exKL.n * 1)) + c04t_exKL.c04t_P / 2 * (1 + c03k_skL1 c04t_exKL.n #[1, -1]) : Nat) : ℚ))
+        / (c04t_exKL.c04t_P : ℚ) ≤ 50 / 17
+    decide +kernel
+
+theorem c03k_exRun2_ok : (c03k_run c03k_exChain1 #[c03k_exVal2] #[] c04t_exKL c03k_exKeys c03k_exProg2).toOption.isSome = true := by
+  decide +kernel
+
+theorem c03k_exRef2_ok :
+    (c03k_ref c03k_exChain1 2 (c03k_skL1 2 #[1, -1]) c03k_exRef2 #[] (fun _ => ⟨fun _ => 0, 0⟩) c03k_exBnu c03k_exProg2).isSome = true := by
+  decide +kernel
+
+/-- the program theorem applies to a concrete run that multiplies and relinearises -/
+theorem c03k_program_relin_nonvacuous :
+    ∃ v r, c03k_run c03k_exChain1 #[c03k_exVal2] #[] c04t_exKL c03k_exKeys c03k_exProg2 = .ok v ∧
+      c03k_ref c03k_exChain1 2 (c03k_skL1 2 #[1, -1]) c03k_exRef2 #[] (fun _ => ⟨fun _ => 0, 0⟩) c03k_exBnu c03k_exProg2 = some r ∧
+      v.lv = r.lv ∧ v.scale = r.scale ∧ v.ct.polys.size = 2 ∧ r.size = 2 ∧
+      ∀ j, j < 2 → |((c03k_phase (c03k_exChain1 v.lv) #[1, -1] v.ct j : Int) : ℚ) - r.val j| ≤ r.err ∧ |r.val j| ≤ r.mag := by
+  have h1 := c03k_exRun2_ok
+  have h2 := c03k_exRef2_ok
+  cases hv : c03k_run c03k_exChain1 #[c03k_exVal2] #[] c04t_exKL c03k_exKeys c03k_exProg2 with
+  | error e => rw [hv] at h1; cases h1
+  | ok v =>
+    cases hr : c03k_ref c03k_exChain1 2 (c03k_skL1 2 #[1, -1]) c03k_exRef2 #[] (fun _ => ⟨fun _ => 0, 0⟩) c03k_exBnu c03k_exProg2 with
+    | none => rw [hr] at h2; cases h2
+    | some r =>
+      obtain ⟨a, b, c, _, d⟩ := ckks_program_sound c03k_exChain1OK (c03k_env_single c03k_exInv2) c03k_exProg2
+        (fun _ => c03k_exRelinOK) hv hr
+      have hr2 : r.size = 2 := by
+        rw [c03k_exProg2, c03k_ref] at hr
+        obtain ⟨x, _, g⟩ := c03k_obind hr
+        obtain ⟨rfl, _⟩ := c03k_guard_some g
+        rfl
+      exact ⟨v, r, rfl, rfl, a, b, by rw [c, hr2], hr2, d⟩
 
 end HC
